@@ -809,7 +809,19 @@ def pinned_descriptions():
                     {"s": "add_inst", "R": ["CH", "O"], "P": ["CO", "H"], "pseudo": [], "alpha": 4.4e-11, "rtype": 100, "idx": 15},
                     {"s": "add_str", "fmt": "kida", "line": "O          H2                     OH         H                                             3.300e-11  0.000e+00  0.000e+00 2.00e+00 0.00e+00 logn  4     10  41000  3    16 1  1\n"},
                     {"s": "render", "solver": "cvode", "method": "sparse", "device": "cpu", "pattern": False}]}
-    return [p1, p2, p3, p4, p5, p6]
+    # an aggressor whose rendering FAILS (a misspelt grain model on a network with an ice species) after
+    # its network was built under a replacement table: whatever the failure leaves behind must not reach
+    # the networks built afterwards.  Its own renderings raise in the solo reference as well (expected).
+    p7 = {"id": "pinned-failing-render-0", "family": "pinned-failing-render", "entry": "api", "name": "simproj",
+          "expect_unusable": True, "aggressor_ok": True, "files": {},
+          "net": dict(UPPER, grain_model="hh39"),
+          "steps": [{"s": "new", "replacement": {"E": "e", "HE": "He"}},
+                    {"s": "add_inst", "R": ["HE", "CR"][:1], "P": ["HE+", "E-"], "pseudo": ["CR"], "alpha": 0.5, "rtype": 101, "idx": 1},
+                    {"s": "add_inst", "R": ["CO"], "P": ["#CO"], "pseudo": [], "alpha": 1.0, "rtype": 200, "idx": 2},
+                    {"s": "add_inst", "R": ["#CO"], "P": ["CO"], "pseudo": [], "alpha": 1.0, "rtype": 201, "idx": 3},
+                    {"s": "render", "solver": "cvode", "method": "dense", "device": "cpu", "pattern": False},
+                    {"s": "to_code", "solver": "cvode", "method": "sparse", "device": "cpu"}]}
+    return [p1, p2, p3, p4, p5, p6, p7]
 
 
 def build_library(seed, tier):
